@@ -223,3 +223,20 @@ for _p, _t in (('C01', 'mutual exclusion, lost-update and trylock oracles'), ('C
     LEVEL_TEXT[_p] = 'Generated multi-threaded programs executed under a deterministic scheduler whose schedule vector is generated data (random and bounded-exhaustive over preemptions); ' + _t + '. Explores interleavings the OS scheduler would never produce; says nothing beyond the programs/schedules explored.'
     LEVEL_NOTE[_p] = 'Trusted: the scheduler and its pthread model (engines/dsched/vsched.h), the harness oracles. Sequentially consistent execution only.'
     TECHNIQUE[_p] = 'property-based testing over generated programs and generated schedules (deterministic scheduler, rapidcheck) + bounded-exhaustive preemption enumeration'
+
+# ---- real-thread sub-checks (TSan happens-before oracle on c11/sim, outcome oracles on plain builds) ----
+for _cfg in ('gcc-tsan-c11', 'gcc-tsan-sim', 'gcc-plain-c11', 'gcc-plain-sync', 'gcc-plain-sim'):
+    harness('rt_' + _cfg.replace('gcc-', '').replace('-', '_'), 'engines/rthreads/rthreads.cpp', _cfg)
+def _rtsubs(kinds, qcases, tcases):
+    subs = []
+    for cfg, tsan in (('tsan_c11', 1), ('tsan_sim', 1), ('plain_c11', 0), ('plain_sync', 0), ('plain_sim', 0)):
+        subs.append(Sub('rt_' + cfg, 'rt_' + cfg, shards=(1, 2), cases=(qcases, tcases), maxsize=(100, 100), kind='stress',
+                        env={'VERIF_KINDS': kinds + (',sbset,sbget' if (not tsan and 'sb' in kinds.split(',')) else ''), 'VERIF_CONFIG_TSAN': tsan}, timeout=(900, 3600)))
+    return subs
+PROPS['C01'].subs += _rtsubs('lockrec,lockrec,trylockrec', 20, 300)
+PROPS['C04'].subs += _rtsubs('ticket,ticket,countdown,casloop,mix,mp,sb', 24, 300)
+PROPS['C01'].rule += ' Real-thread sub-checks: generated (threads 2-8, rounds, lock kind, noise seed) lock programs on real threads, under ThreadSanitizer for the c11 and sim models (any race report on the protected record is a violation - this is the visibility clause) and with outcome oracles only on plain -O2 builds of c11, sync, sim.'
+PROPS['C04'].rule += ' Real-thread sub-checks: ticket uniqueness (add), countdown (dec_and_test TRUE exactly once), CAS increment loop, or/xor/and/inc mixes, message-passing and store-buffering litmus with iteration counts; TSan on c11/sim, outcome oracles on plain c11/sync/sim.'
+PROPS['C01'].assumptions.append('ThreadSanitizer is not applied to the sync model (plain volatile store + full fence is outside its happens-before vocabulary and reports on the unchanged tree); on x86-64 a missing release fence in sync has no observable outcome')
+PROPS['C04'].assumptions.append('litmus outcomes "never observed" are evidence, not proof; TSan not applied to the sync model')
+ENGINES.append(dict(name='rthreads', path='engines/rthreads', serves_properties=['C01', 'C04'], kind_free_text='generated stress programs on real threads; ThreadSanitizer (gcc) as happens-before oracle, closed-form outcome oracles'))
